@@ -580,6 +580,29 @@ def check(ctx):
     if n7 < 25:
         raise AnalysisError('C08.R7 examined only %d consuming calls (floor 25)' % n7)
 
+    # ---- R8: the JSON document is parsed into machine numbers.  json.loads() turns a number with a fraction or an exponent into a float (bounded: 1e999999 is inf) in time linear
+    #      in the text.  A parse hook that keeps the number exact (decimal.Decimal, fractions.Fraction) keeps the exponent symbolic, and any later int() / arithmetic on it
+    #      materialises 10**exponent: a 15-octet document costs minutes and hundreds of megabytes.
+    ctx.rule('C08.R8', 'JER: json.loads parses numbers with the default (bounded) float / int conversions: no parse hook that keeps the exponent of the text symbolic')
+    n8 = 0
+    jm = model.mod('asn1tools/codecs/jer.py')
+    for x_ in ast.walk(jm.tree):
+        if not (isinstance(x_, ast.Call) and ast.unparse(x_.func) in ('json.loads', 'json.load', 'loads', 'json.JSONDecoder', 'JSONDecoder')):
+            continue
+        n8 += 1
+        hooks = [(k_.arg, k_.value) for k_ in x_.keywords if k_.arg in ('parse_float', 'parse_int', 'parse_constant', 'object_hook', 'object_pairs_hook', 'cls')]
+        bad_ = [(a_, v_) for a_, v_ in hooks if not (a_ == 'parse_float' and ast.unparse(v_) == 'float') and not (a_ == 'parse_int' and ast.unparse(v_) == 'int')
+                and not (isinstance(v_, ast.Constant) and v_.value is None)]
+        f_ = Model.enclosing_function(x_)
+        ctx.instance('C08.R8', '%s %s' % (Model.qual(f_) if f_ is not None else jm.rel, ast.unparse(x_)[:80]), 'default number parsing' if not bad_ else 'VIOLATION', node=x_, file=jm.rel)
+        for a_, v_ in bad_[:1]:
+            ctx.violation('C08.R8', jm.rel, x_, Model.qual(f_) if f_ is not None else jm.rel,
+                          'the document is parsed with %s=%s: numbers are no longer reduced to bounded floats while parsing, so the exponent written in the text survives as a number of '
+                          'arbitrary size (1e3000000 in 9 octets) and the work and memory of decoding it are not proportional to the length of the input'
+                          % (a_, ast.unparse(v_)[:40]), stmt='json parse hook %s' % a_)
+    if n8 < 1:
+        raise AnalysisError('C08.R8: no json.loads call found in asn1tools/codecs/jer.py')
+
 
 def decode_length_missing_data(model):
     """Every path on which ber.decode_length returns a definite length (L, O) has established  not (O + L > len(buffer)),
